@@ -240,4 +240,18 @@ example :
     (shouldPrint S (POpts.ofNat WdMode.trim.bits) n, shouldPrint S (POpts.ofNat WdMode.explicit.bits) n,
       tagged S (POpts.ofNat WdMode.reportAllTagged.bits) n) = (false, true, true) := by decide
 
+/-! ## not proved
+
+-- OPEN: `validate_idempotent` for schemas with `choice` / `case` (the defective variants F65 / F66 violate it: a second
+-- validation completes an outer case / removes an outer default case).  Law `idempotent` of tools/checks/c07.py on the
+-- implementation, model correspondence through `hist`.
+-- OPEN: `valdiff_exact` (applying the returned diff to the input gives the output; the diff is empty iff nothing changed).
+-- The model composes `Valid.ValDiff.valDiff` with the `diff` component's `apply`; laws `valdiff-apply` / `valdiff-eq`
+-- evaluate it on the implementation; findings F62, F63, F64 are its counterexamples in the code.
+-- OPEN: `np_cont_dflt` (a non-presence container carries `LYD_DEFAULT` iff all its children do) as an invariant of every
+-- history; `freshNode` / `npSet` model it, law `dflt-flag` checks it after every step.
+-- OPEN: `implicit_exact` through choices (default case chosen iff no case has data): `dflt_flag_sound` gives soundness
+-- for all schemas, exactness is proved for the choice-free level (`implicit_exact`); law `implicit` against `rfcdefaults`.
+-/
+
 end LyModel.Props.C07
